@@ -171,6 +171,7 @@ func main() {
 	flag.BoolVar(&verboseInit, "verbose-init", false, "report skipped initialiser statements")
 	dump := flag.String("dump", "", "dump SSA of the named function and exit")
 	solver := flag.String("solver", "z3-new", "primary solver kind")
+	seed := flag.Int64("seed", 0, "seed for witness sample selection (verdicts do not depend on it)")
 	flag.Parse()
 
 	t0 := time.Now()
@@ -223,7 +224,7 @@ func main() {
 			os.Exit(2)
 		}
 		cfg := Config{Workers: *workers, MaxPaths: *maxPaths, MaxSteps: *maxSteps, CrossCheck: *cross, ReverseMaps: *revMaps,
-			Params: params, Samples: *samples, TimeLimit: *timeLimit, Solver: *solver}
+			Params: params, Samples: *samples, TimeLimit: *timeLimit, Solver: *solver, Seed: *seed}
 		r := Explore(P, fn, cfg)
 		results = append(results, r)
 		if r.Truncated {
